@@ -10,6 +10,7 @@ observed (sanitizers, memcheck, repeated runs with perturbed allocator / address
 import Qsx.Proofs.CapSound
 import Qsx.Proofs.StoreAcctSound
 import Qsx.Proofs.SymtabPool
+import Qsx.Props.C06
 
 namespace Qsx.Props.C17
 open Qsx Qsx.Cap
@@ -61,5 +62,24 @@ theorem symtab_pool_write_fits (t : Symtab.T) (s : Symtab.Name) (h : Symtab.Pool
     t'.strsize + (s.length + 1) ≤ t'.strspace ∧ (Symtab.addString t s).strsize ≤ (Symtab.addString t s).strspace ∧
     0 < (Symtab.addString t s).strspace :=
   Symtab.addString_fits t s h
+
+/-- for every history of registrations, deletions and renamings the pool invariant holds - so every
+`add_string` that any such history performs finds room for its string (previous theorem), without
+the hypothesis having to be observed -/
+theorem symtab_pool_history (n : Nat) (ops : List Qsx.Props.C06.Sym.Op) :
+    Symtab.PoolInv (ops.foldl Qsx.Props.C06.Sym.step (Symtab.create n)) := by
+  have key : ∀ (ops : List Qsx.Props.C06.Sym.Op) (t : Symtab.T), Symtab.WF t → Symtab.PoolInv t →
+      Symtab.PoolInv (ops.foldl Qsx.Props.C06.Sym.step t) := by
+    intro ops
+    induction ops with
+    | nil => intro t _ h; exact h
+    | cons op ops ih =>
+      intro t hw h
+      simp only [List.foldl_cons]
+      cases op with
+      | reg s i => exact ih _ (Symtab.register_wf hw s i) (Symtab.register_poolInv h s i)
+      | del s => exact ih _ (Symtab.delete_wf hw s) (Symtab.delete_poolInv hw h s)
+      | ren i s => exact ih _ (Symtab.rename_wf hw i s) (Symtab.rename_poolInv h i s)
+  exact key ops _ (Symtab.create_wf n) (Symtab.create_poolInv n)
 
 end Qsx.Props.C17
